@@ -3,7 +3,8 @@ import os, sys, random
 
 
 def scenarios():
-    return ['vq-euclid', 'vq-cosine', 'vq-heads-sep', 'vq-euclid-masked', 'vq-cosine-masked', 'vq-expiry', 'vq-cosine-expiry', 'vq-cosine-heads-expiry', 'vq-kmeans', 'vq-cosine-kmeans-expiry', 'rvq-cosine-shared', 'rvq-layers-dropout', 'rvq-shared', 'lfq']
+    return ['vq-euclid', 'vq-cosine', 'vq-heads-sep', 'vq-euclid-masked', 'vq-cosine-masked', 'vq-expiry', 'vq-cosine-expiry', 'vq-cosine-heads-expiry', 'vq-kmeans', 'vq-cosine-kmeans-expiry', 'rvq-cosine-shared', 'rvq-layers-dropout', 'rvq-shared', 'lfq',
+            'vq-expiry-scarce', 'vq-cosine-expiry-scarce', 'vq-kmeans-scarce-frozen-first', 'vq-cosine-kmeans-scarce-frozen-first']
 
 
 def build(name, sync=True):
@@ -34,6 +35,15 @@ def build(name, sync=True):
         return ResidualVQ(dim=3, num_quantizers=4, codebook_size=5, decay=0.5, quantize_dropout=True, sync_codebook=sync), 3
     if name == 'rvq-shared':
         return ResidualVQ(dim=3, num_quantizers=2, codebook_size=6, decay=0.5, shared_codebook=True, threshold_ema_dead_code=1, sync_codebook=sync), 3
+    # SCARCE batches: more vectors are requested (expired codes / k-means seeds) than all ranks hold together, so the samplers draw with replacement
+    if name == 'vq-expiry-scarce':
+        return VectorQuantize(dim=3, codebook_size=64, decay=0.25, threshold_ema_dead_code=2, sync_codebook=sync), 3
+    if name == 'vq-cosine-expiry-scarce':
+        return VectorQuantize(dim=3, codebook_size=64, decay=0.25, use_cosine_sim=True, threshold_ema_dead_code=2, sync_codebook=sync), 3
+    if name == 'vq-kmeans-scarce-frozen-first':
+        return VectorQuantize(dim=3, codebook_size=40, kmeans_init=True, kmeans_iters=2, decay=0.5, sync_codebook=sync), 3
+    if name == 'vq-cosine-kmeans-scarce-frozen-first':
+        return VectorQuantize(dim=3, codebook_size=40, kmeans_init=True, kmeans_iters=2, use_cosine_sim=True, decay=0.5, sync_codebook=sync), 3
     if name == 'lfq':
         return LFQ(dim=3, codebook_size=8, commitment_loss_weight=0.25), 3
     raise KeyError(name)
@@ -79,6 +89,9 @@ def worker(rank, world, initfile, outdir, seed, steps):
                     m = torch.arange(3)[None, :] < torch.tensor(lens)[:, None]
                     rec.setdefault('masks', []).append(m)
                     ret = mod(x, mask=m)
+                    idx = ret[1]
+                elif name.endswith('-frozen-first') and t == 0:
+                    ret = mod(x, freeze_codebook=True)       # the initialising call only initialises: the k-means result itself stays observable
                     idx = ret[1]
                 else:
                     ret = mod(x)
